@@ -437,7 +437,7 @@ package transport
 // that could be recycled while the request is still in flight - and a returned message carries the caller's ID.
 //@ func (u *DoHTransport) ExchangeContext(ctx context.Context, q []byte) (r *dnsmsg.Msg, err error)
 //@   props C20 C05
-//@   requires u != nil && ctx != nil && u.logger != nil
+//@   requires u != nil && ctx != nil && u.logger != nil && u.reqTemplate != nil && u.urlTemplate != nil && u.rt != nil
 //@   ghost nRel int = 0
 //@   oncall ReleaseBuf?: nRel = nRel + 1
 //@   modifies field(dnsmsg.Header.ID)
@@ -447,7 +447,7 @@ package transport
 
 //@ closure DoHTransport.ExchangeContext$1
 //@   props C20
-//@   requires u != nil && u.logger != nil && resChan != nil
+//@   requires u != nil && u.logger != nil && resChan != nil && u.reqTemplate != nil && u.urlTemplate != nil && u.rt != nil
 //@   requires [C20:request-string-not-pooled] !attr(pooled, rawQuery)
 //@   modifies *
 //@   callsite bytesToStringUnsafe: [C20:request-string-not-pooled] !attr(pooled, arg0)
